@@ -1,6 +1,7 @@
 package props
 
 import (
+	"bufio"
 	"bytes"
 	"fmt"
 	"io"
@@ -93,14 +94,14 @@ func init() {
 		ID:    "C19",
 		Level: "exploration",
 		Rule: "seeded record sequences (1..12 records, time stamps over the whole int32 range incl. both extremes and negatives, messages of 1..2000 bytes incl. leading-zero nibbles) written by an independent line encoder and read back " +
-			"through 7 reader flavours (whole, one byte per Read, random fragments, last bytes together with io.EOF, fragments + EOF-with-data, a real os.Pipe and an io.Pipe fed by a writer goroutine in random fragments); plus mutated lines embedded between two intact lines. " +
+			"through 10 reader flavours (whole, one byte per Read, random fragments, last bytes together with io.EOF, fragments + EOF-with-data, a real os.Pipe, an io.Pipe fed by a writer goroutine in random fragments, and *bufio.Reader / *bytes.Buffer / *strings.Reader handed over directly); plus mutated lines embedded between two intact lines. " +
 			"distinct = distinct byte streams x reader flavour (content hash); every case is non-trivial (at least one record is decoded and compared)",
 		Assumptions: []string{
 			"the line format is the one the out-port writes: decimal time stamp, one space, upper-case hex pairs, newline",
 			"a malformed line is: odd number of hex digits, a character that is not a hex digit in the hex field (incl. a second separator, which is what a lost terminator produces), no separator, no terminator before end of stream",
 			"lower-case hex digits are not treated as malformed",
 		},
-		Require: []string{"records_decoded", "reader:onebyte", "reader:eof-with-data", "reader:ospipe", "reader:iopipe", "mutant:odd-hex", "mutant:non-hex", "mutant:no-separator", "mutant:no-terminator", "mutant:lost-terminator", "intact_line_after_mutant_decoded"},
+		Require: []string{"records_decoded", "reader:onebyte", "reader:eof-with-data", "reader:ospipe", "reader:iopipe", "mutant:odd-hex", "mutant:non-hex", "mutant:no-separator", "mutant:no-terminator", "mutant:lost-terminator", "mutant:char-before-terminator", "mutant_reader:bufio", "reader:bufio", "intact_line_after_mutant_decoded"},
 		Run:     runC19,
 	})
 }
@@ -169,11 +170,18 @@ func showRecs(l []rec) []string {
 }
 
 func runC19(c *mon.Ctx) {
-	flavours := []string{"whole", "onebyte", "fragments", "eof-with-data", "fragments+eof", "ospipe", "iopipe"}
+	flavours := []string{"whole", "onebyte", "fragments", "eof-with-data", "fragments+eof", "ospipe", "iopipe", "bufio", "bytes.Buffer", "strings.Reader"}
 	mkReader := func(fl string, stream []byte, r *mon.Rand) (io.Reader, func()) {
 		switch fl {
 		case "whole":
 			return bytes.NewReader(stream), func() {}
+		// well-known concrete reader types handed over directly (a decoder may recognise them by type)
+		case "bufio":
+			return bufio.NewReaderSize(&chunkReader{b: stream, chunks: r.Partition(len(stream), 11)}, r.Pick(16, 17, 64, 4096)), func() {}
+		case "bytes.Buffer":
+			return bytes.NewBuffer(append([]byte(nil), stream...)), func() {}
+		case "strings.Reader":
+			return strings.NewReader(string(stream)), func() {}
 		case "onebyte":
 			return &oneByteReader{b: append([]byte(nil), stream...)}, func() {}
 		case "fragments":
@@ -261,7 +269,7 @@ func runC19(c *mon.Ctx) {
 		line := refLine(x.ts, x.msg)
 		sp := bytes.IndexByte(line, ' ')
 		hexLen := len(line) - sp - 2
-		kind := []string{"odd-hex", "non-hex", "no-separator", "no-terminator", "lost-terminator"}[i%5]
+		kind := []string{"odd-hex", "non-hex", "no-separator", "no-terminator", "lost-terminator", "char-before-terminator"}[i%6]
 		var stream []byte
 		expectB := true
 		switch kind {
@@ -280,6 +288,10 @@ func runC19(c *mon.Ctx) {
 			bad := bads[r.Intn(len(bads))]
 			line = append([]byte(nil), line...)
 			line[p] = bad
+		case "char-before-terminator":
+			// a carriage return (or another stray character) directly in front of the newline
+			bads := []byte("\r\r\r \t\x00;")
+			line = append(append(append([]byte(nil), line[:len(line)-1]...), bads[r.Intn(len(bads))]), '\n')
 		case "no-separator":
 			line = append(append([]byte(nil), line[:sp]...), line[sp+1:]...)
 		case "no-terminator":
@@ -299,7 +311,8 @@ func runC19(c *mon.Ctx) {
 		if kind != "no-terminator" {
 			stream = append(stream, refLine(b.ts, b.msg)...)
 		}
-		fl := []string{"whole", "onebyte", "fragments", "fragments+eof"}[r.Intn(4)]
+		fl := []string{"whole", "onebyte", "fragments", "fragments+eof", "bufio", "bytes.Buffer", "strings.Reader", "bufio"}[r.Intn(8)]
+		c.Count("mutant_reader:"+fl, 1)
 		rd, _ := mkReader(fl, stream, r)
 		c.Count("mutant:"+kind, 1)
 		c.DistinctBytes([]byte(fl), stream)
